@@ -325,7 +325,8 @@ def spec_classify(case):
 # ---------------------------------------------------------------- refusals
 def reject_strategy():
     def bad_value(lo, hi):
-        return st.one_of(st.sampled_from([lo - 1, hi + 1, -1 if lo > 0 else lo - 1, hi + 2, 2 * (hi + 1), 2 ** 31, -2 ** 31]),
+        # (round 11: also values no 64-bit integer holds - still a ValueError, not an OverflowError from the conversion)
+        return st.one_of(st.sampled_from([lo - 1, hi + 1, -1 if lo > 0 else lo - 1, hi + 2, 2 * (hi + 1), 2 ** 31, -2 ** 31, 2 ** 63, 2 ** 64, -2 ** 63 - 1, 10 ** 30]),
                          st.integers(hi + 1, 2 ** 40), st.integers(-2 ** 40, lo - 1))
 
     @st.composite
@@ -346,6 +347,8 @@ def reject_strategy():
             case['field'] = name
             case['row'] = draw(st.integers(0, n - 1))
             case['value'] = draw(bad_value(lo, hi))
+            if abs(case['value']) >= 2 ** 63:
+                case['conv'] = 'scalar'          # no integer array holds it
             if name == 'mjd' and draw(st.integers(0, 1)) == 0:
                 # an MJD far below 50000 (a reduced Julian date given by mistake, a zero from an empty table cell)
                 case['value'] = draw(st.sampled_from([0, 1, 100, 847, 848, 5359, 15000, 16383, 49999]))
